@@ -4,8 +4,9 @@ Property theorems only; helper lemmas live in ElysModel/Lemmas/Stable.lean.
 
 Everything is on raw `LegacyDec` integers: `P = 10^18`, a rate `r` means `r / P` deposit units per
 share, `Dec.ceilInt r = ⌈r / P⌉` is "one share's worth" rounded up.  `S` = share supply,
-`TV` = `Params.TotalValue`.  The standing hypothesis `0 < S ≤ TV` says "the vault exists and a share
-is worth at least one unit" (rate ≥ 1).
+`TV` = `Params.TotalValue`.  The standing hypotheses are `0 < S`, `0 ≤ TV` and `0 < rate TV S` ("the
+vault exists and a share is worth something"); `healthy` shows that the property's own domain
+`TV ≥ S > 0` (rate ≥ 1) is inside it, and `bond_keeps_rate_ge_one` that a bond stays inside that domain.
 
 Each inequality is stated in its exact integer form (`…_tight`, no size restriction) and, where the
 one-share allowance `⌈r⌉` only holds up to a size, additionally as a `…_partial` theorem whose extra
@@ -14,6 +15,24 @@ hypothesis is explained, with a `…_witness` showing what happens beyond it.
 import ElysModel.Lemmas.Stable
 namespace Elys.Stable.C07
 open Elys Elys.Stable
+
+/-! ### the domain -/
+
+/-- the property's domain `TV ≥ S > 0` lies inside the theorems' hypotheses: there the rate is ≥ 1 (raw ≥ P). -/
+theorem healthy (tv supply : Int) (hS : 0 < supply) (hTV : supply ≤ tv) : 0 ≤ tv ∧ P ≤ rate tv supply ∧ 0 < rate tv supply := by
+  have h := rate_ge_one hS hTV
+  have := P_pos
+  exact ⟨by omega, h, by omega⟩
+
+/-- a successful bond into a vault with `TV ≥ S > 0` mints at most as many shares as units deposited, so
+`TV' ≥ S' > 0` afterwards: bonds never take the vault out of the domain. -/
+theorem bond_keeps_rate_ge_one (s s1 : St) (a bal m : Int) (hS : 0 < s.supply) (hTV : s.supply ≤ s.tv)
+    (hb : bond s a bal = .ok (s1, m)) : m ≤ a ∧ 0 < s1.supply ∧ s1.supply ≤ s1.tv := by
+  obtain ⟨ha, _, hm, hm0, hs1⟩ := bond_ok hb
+  have h := shares_le_amount (by omega : 0 ≤ a) (rate_ge_one hS hTV)
+  rw [← hm] at h
+  subst hs1
+  exact ⟨h, by simp only; omega, by simp only; omega⟩
 
 /-! ### shares are issued and redeemed at the (rounded) rate -/
 
@@ -43,33 +62,32 @@ theorem redeem_fair (s s1 : St) (sh held p : Int) (hr : 0 ≤ rate s.tv s.supply
 `1/2 + (r/P)/2·(1 + 1/P + 2/P²) + 2S/P²` — half a unit, half a share's worth, and a term that only
 matters above 10^35 shares.  All `TV ≥ S > 0`, all `a` (a successful bond has `a ≥ 1`). -/
 theorem bond_unbond_tight (s s1 s2 : St) (a bal held m p : Int)
-    (hS : 0 < s.supply) (hTV : s.supply ≤ s.tv)
+    (hS : 0 < s.supply) (hTV : 0 ≤ s.tv) (hr : 0 < rate s.tv s.supply)
     (hb : bond s a bal = .ok (s1, m)) (hu : unbond s1 m held = .ok (s2, p)) :
     2 * (P * P * P) * (p - a) ≤ P * P * P + (P * P + P + 2) * rate s.tv s.supply + 4 * s.supply * P := by
   obtain ⟨ha, _, hm, _, hs1⟩ := bond_ok hb
   obtain ⟨_, _, hp, _, _, _⟩ := unbond_ok hu
   subst hs1; subst hm; subst hp
-  exact bond_unbond_core hS hTV ha
+  exact bond_unbond_core hS hTV hr ha
 
 /-- the round trip never returns more than the deposit plus one share's worth (rounded up), plus one unit
 per 2.5·10^35 shares of supply.  All `TV ≥ S > 0`, all amounts. -/
 theorem bond_unbond (s s1 s2 : St) (a bal held m p : Int)
-    (hS : 0 < s.supply) (hTV : s.supply ≤ s.tv)
+    (hS : 0 < s.supply) (hTV : 0 ≤ s.tv) (hr : 0 < rate s.tv s.supply)
     (hb : bond s a bal = .ok (s1, m)) (hu : unbond s1 m held = .ok (s2, p)) :
     p ≤ a + Dec.ceilInt (rate s.tv s.supply) + (4 * s.supply) / (P * P) := by
-  have h := bond_unbond_tight s s1 s2 a bal held m p hS hTV hb hu
-  have hr := rate_ge_one hS hTV
+  have h := bond_unbond_tight s s1 s2 a bal held m p hS hTV hr hb hu
   generalize rate s.tv s.supply = r at *
-  have hr0 : 0 ≤ r := Int.le_trans (Int.le_of_lt P_pos) hr
+  have hr0 : 0 ≤ r := Int.le_of_lt hr
   simp only [Dec.ceilInt, Int.tdiv_eq_ediv_of_nonneg hr0, Int.tmod_eq_emod_of_nonneg hr0, P] at *
   split <;> omega
 
 /-- below 2.5·10^35 shares the allowance is exactly one share's worth: payout ≤ a + ⌈r⌉. -/
 theorem bond_unbond_one_share (s s1 s2 : St) (a bal held m p : Int)
-    (hS : 0 < s.supply) (hTV : s.supply ≤ s.tv) (hsmall : 4 * s.supply < P * P)
+    (hS : 0 < s.supply) (hTV : 0 ≤ s.tv) (hr : 0 < rate s.tv s.supply) (hsmall : 4 * s.supply < P * P)
     (hb : bond s a bal = .ok (s1, m)) (hu : unbond s1 m held = .ok (s2, p)) :
     p ≤ a + Dec.ceilInt (rate s.tv s.supply) := by
-  have h := bond_unbond s s1 s2 a bal held m p hS hTV hb hu
+  have h := bond_unbond s s1 s2 a bal held m p hS hTV hr hb hu
   have : (4 * s.supply) / (P * P) = 0 := Int.ediv_eq_zero_of_lt (by omega) hsmall
   omega
 
@@ -80,19 +98,19 @@ theorem bond_unbond_one_share (s s1 s2 : St) (a bal held m p : Int)
 rounding of the minted shares can go up), and `h/P` because the rate itself is only kept to 18 digits.
 All sizes. -/
 theorem others_unharmed_bond (s s1 : St) (a bal m h : Int)
-    (hS : 0 < s.supply) (hTV : s.supply ≤ s.tv) (hh : 0 ≤ h) (hhS : h ≤ s.supply)
+    (hS : 0 < s.supply) (hTV : 0 ≤ s.tv) (hr : 0 < rate s.tv s.supply) (hh : 0 ≤ h) (hhS : h ≤ s.supply)
     (hb : bond s a bal = .ok (s1, m)) :
     2 * (P * P) * (payoutFor h (rate s.tv s.supply) - payoutFor h (rate s1.tv s1.supply))
       < 2 * (P * P) + (P + 1) * (2 * h + rate s.tv s.supply) := by
   obtain ⟨ha, _, hm, _, hs1⟩ := bond_ok hb
   subst hs1; subst hm
-  exact others_bond_core hS hTV ha hh hhS
+  exact others_bond_core hS hTV hr ha hh hhS
 
 /-- someone else's unbond that leaves `S' > 0` shares: `h ≤ S'` shares redeem for less by under
 `3/2 + (S + S')/(2P) + S'/P²`.  `cash ≤ TV` is C06's equation with non-negative debts; it makes the
 payout (≤ cash, or the bank refuses) at most `TV`.  All sizes. -/
 theorem others_unharmed_unbond (s s1 : St) (sh held p h : Int)
-    (hS : 0 < s.supply) (hTV : s.supply ≤ s.tv) (hcash : s.cash ≤ s.tv)
+    (hS : 0 < s.supply) (hTV : 0 ≤ s.tv) (hcash : s.cash ≤ s.tv)
     (hh : 0 ≤ h) (hhS : h ≤ s1.supply) (hS1 : 0 < s1.supply)
     (hu : unbond s sh held = .ok (s1, p)) :
     2 * (P * P) * (payoutFor h (rate s.tv s.supply) - payoutFor h (rate s1.tv s1.supply))
@@ -105,20 +123,19 @@ theorem others_unharmed_unbond (s s1 : St) (sh held p h : Int)
 costs a holder at most one share's worth, `⌈r⌉`.  Beyond that size the 18-digit rate itself moves what
 a large holding redeems for by more (see `others_unharmed_large_witness`). -/
 theorem others_unharmed_bond_partial (s s1 : St) (a bal m h : Int)
-    (hS : 0 < s.supply) (hTV : s.supply ≤ s.tv) (hh : 0 ≤ h) (hhS : h ≤ s.supply) (hsmall : 4 * s.supply ≤ P)
+    (hS : 0 < s.supply) (hTV : 0 ≤ s.tv) (hr : 0 < rate s.tv s.supply) (hh : 0 ≤ h) (hhS : h ≤ s.supply) (hsmall : 4 * s.supply ≤ P)
     (hb : bond s a bal = .ok (s1, m)) :
     payoutFor h (rate s.tv s.supply) - payoutFor h (rate s1.tv s1.supply) ≤ Dec.ceilInt (rate s.tv s.supply) := by
-  have ht := others_unharmed_bond s s1 a bal m h hS hTV hh hhS hb
-  have hr := rate_ge_one hS hTV
+  have ht := others_unharmed_bond s s1 a bal m h hS hTV hr hh hhS hb
   generalize rate s.tv s.supply = r at *
   generalize payoutFor h r - payoutFor h (rate s1.tv s1.supply) = L at *
-  have hr0 : 0 ≤ r := Int.le_trans (Int.le_of_lt P_pos) hr
+  have hr0 : 0 ≤ r := Int.le_of_lt hr
   simp only [Dec.ceilInt, Int.tdiv_eq_ediv_of_nonneg hr0, Int.tmod_eq_emod_of_nonneg hr0, P] at *
   split <;> omega
 
 /-- PARTIAL (same hypothesis `4·S ≤ P`): someone else's unbond costs a holder at most one unit (≤ `⌈r⌉`). -/
 theorem others_unharmed_unbond_partial (s s1 : St) (sh held p h : Int)
-    (hS : 0 < s.supply) (hTV : s.supply ≤ s.tv) (hcash : s.cash ≤ s.tv)
+    (hS : 0 < s.supply) (hTV : 0 ≤ s.tv) (hr : 0 < rate s.tv s.supply) (hcash : s.cash ≤ s.tv)
     (hh : 0 ≤ h) (hhS : h ≤ s1.supply) (hS1 : 0 < s1.supply) (hsmall : 4 * s.supply ≤ P)
     (hu : unbond s sh held = .ok (s1, p)) :
     payoutFor h (rate s.tv s.supply) - payoutFor h (rate s1.tv s1.supply) ≤ 1 ∧
@@ -126,10 +143,9 @@ theorem others_unharmed_unbond_partial (s s1 : St) (sh held p h : Int)
   have ht := others_unharmed_unbond s s1 sh held p h hS hTV hcash hh hhS hS1 hu
   obtain ⟨hs, _, _, _, _, hs1⟩ := unbond_ok hu
   have hsup : s1.supply = s.supply - sh := by rw [hs1]
-  have hr := rate_ge_one hS hTV
   generalize rate s.tv s.supply = r at *
   generalize payoutFor h r - payoutFor h (rate s1.tv s1.supply) = L at *
-  have hr0 : 0 ≤ r := Int.le_trans (Int.le_of_lt P_pos) hr
+  have hr0 : 0 ≤ r := Int.le_of_lt hr
   simp only [Dec.ceilInt, Int.tdiv_eq_ediv_of_nonneg hr0, Int.tmod_eq_emod_of_nonneg hr0, P] at *
   refine ⟨by omega, ?_⟩
   split <;> omega
@@ -162,18 +178,18 @@ theorem rate_falls_witness :
 /-- PARTIAL ("never falls" is false, this is the bound that holds): one bond lowers the rate by less than
 `(1 + 1/P)·(1 + r/(2·S'))` raw units, `S'` the supply after it — i.e. `rate × supply` falls by less than
 half a share's worth plus one raw unit per share.  All `TV ≥ S > 0`. -/
-theorem rate_mono_partial (s s1 : St) (a bal m : Int) (hS : 0 < s.supply) (hTV : s.supply ≤ s.tv)
+theorem rate_mono_partial (s s1 : St) (a bal m : Int) (hS : 0 < s.supply) (hTV : 0 ≤ s.tv) (hr : 0 < rate s.tv s.supply)
     (hb : bond s a bal = .ok (s1, m)) :
     2 * P * ((rate s.tv s.supply - rate s1.tv s1.supply) * s1.supply)
       < (P + 1) * (2 * s1.supply + rate s.tv s.supply) := by
   obtain ⟨ha, _, hm, _, hs1⟩ := bond_ok hb
   subst hs1; subst hm
-  exact rate_fall_bond hS hTV ha
+  exact rate_fall_bond hS hTV hr ha
 
 /-- PARTIAL (as above), for an unbond that leaves `S' > 0` shares: the rate falls by less than
 `(S + P + S')/(2·S') + 1/P` raw units — the payout's half unit of rounding, spread over the remaining
 shares, plus the rate's own last digit. -/
-theorem rate_mono_partial_unbond (s s1 : St) (sh held p : Int) (hS : 0 < s.supply) (hTV : s.supply ≤ s.tv)
+theorem rate_mono_partial_unbond (s s1 : St) (sh held p : Int) (hS : 0 < s.supply) (hTV : 0 ≤ s.tv)
     (hcash : s.cash ≤ s.tv) (hS1 : 0 < s1.supply) (hu : unbond s sh held = .ok (s1, p)) :
     2 * P * ((rate s.tv s.supply - rate s1.tv s1.supply) * s1.supply)
       < P * (s.supply + P + s1.supply) + 2 * s1.supply := by
